@@ -239,8 +239,14 @@ func (ex *Exec) setAt(v *Term, path []Step, nv *Term) *Term {
 	}
 	s := path[0]
 	if s.Kind == StepField {
+		if len(path) == 1 {
+			return ex.p.With(v, s.Field, nv)
+		}
 		inner := ex.setAt(ex.p.Acc(v, s.Field), path[1:], nv)
 		return ex.p.With(v, s.Field, inner)
+	}
+	if len(path) == 1 {
+		return ex.p.Store(v, s.Index, nv)
 	}
 	inner := ex.setAt(ex.p.Select(v, s.Index), path[1:], nv)
 	return ex.p.Store(v, s.Index, inner)
@@ -531,4 +537,12 @@ func sortedKeys(m map[string]*Term) []string {
 	}
 	sort.Strings(ks)
 	return ks
+}
+
+// rootOrStepType: the Go type of the location a pointer denotes.
+func (p *PtrV) rootOrStepType() types.Type {
+	if len(p.Path) > 0 {
+		return p.Path[len(p.Path)-1].T
+	}
+	return p.Root
 }
